@@ -10,7 +10,9 @@ import EventppVerif.Q.DispAux
 
   Model: Q/Machine.lean.  `directDispatch` = `nextFilter` (filters over a snapshot of the filter
   list, skipping removed ones; a filter returning `true` rewrites the argument by
-  `b.rewrite cur arg` for everything that follows; `false` ends the dispatch) then `nextListener`.
+  `b.rewrite cur arg` for everything that follows; `false` ends the dispatch) then `nextListener`;
+  after each listener has returned the policy `b.cont` (`CanContinueInvoking::canContinueInvoking`)
+  is evaluated on the dispatch's argument, `false` ends the dispatch (`C12_canContinue_*`).
   Specification: `dispatchCalls` (Q/DispAux.lean), a pure function.
 
   The `conditionalFunctor` / `argumentAdapter` utilities are tiny self-contained models at the end.
@@ -20,24 +22,43 @@ open Evp QCfg
 
 /-! ### the specification, spelled out -/
 
-/-- no filter (left): the listeners are called in list order with the current argument -/
+/-- no filter (left): the listeners that the `CanContinueInvoking` policy lets run (`policyCut`) are
+    called in list order with the current argument -/
 theorem C12_spec_nil (listeners : SList) (verdict : Cb → Nat → Bool) (rw : Cb → Nat → Nat)
-    (key arg : Nat) :
-    dispatchCalls [] listeners verdict rw key arg =
-      listeners.map (fun e => ⟨.listener, key, e.id, e.cb, arg⟩) := rfl
+    (cont : Nat → Bool) (key arg : Nat) :
+    dispatchCalls [] listeners verdict rw cont key arg =
+      (policyCut cont arg listeners).map (fun e => ⟨.listener, key, e.id, e.cb, arg⟩) := rfl
+
+/-- … all of them if the policy says "continue" for this argument (always so with the default
+    policy) … -/
+theorem C12_spec_nil_all (listeners : SList) (verdict : Cb → Nat → Bool) (rw : Cb → Nat → Nat)
+    (cont : Nat → Bool) (key arg : Nat) (h : cont arg = true) :
+    dispatchCalls [] listeners verdict rw cont key arg =
+      listeners.map (fun e => ⟨.listener, key, e.id, e.cb, arg⟩) := by
+  simp [dispatchCalls, callsFrom, listenerCalls, h]
+
+/-- … and only the first one if it says "stop": the policy is asked after each listener has
+    returned, so the first listener always runs -/
+theorem C12_spec_nil_stop (listeners : SList) (verdict : Cb → Nat → Bool) (rw : Cb → Nat → Nat)
+    (cont : Nat → Bool) (key arg : Nat) (h : cont arg = false) :
+    dispatchCalls [] listeners verdict rw cont key arg =
+      (listeners.take 1).map (fun e => ⟨.listener, key, e.id, e.cb, arg⟩) := by
+  simp [dispatchCalls, callsFrom, listenerCalls, h]
 
 /-- the first filter is called with the current argument; if it returns `true` the dispatch goes on
     with the remaining filters and the argument as rewritten by it -/
 theorem C12_spec_pass (f : Entry) (fs listeners : SList) (verdict : Cb → Nat → Bool)
-    (rw : Cb → Nat → Nat) (key arg : Nat) (h : verdict f.cb arg = true) :
-    dispatchCalls (f :: fs) listeners verdict rw key arg =
-      ⟨.filter, key, f.id, f.cb, arg⟩ :: dispatchCalls fs listeners verdict rw key (rw f.cb arg) := by
+    (rw : Cb → Nat → Nat) (cont : Nat → Bool) (key arg : Nat) (h : verdict f.cb arg = true) :
+    dispatchCalls (f :: fs) listeners verdict rw cont key arg =
+      ⟨.filter, key, f.id, f.cb, arg⟩ ::
+        dispatchCalls fs listeners verdict rw cont key (rw f.cb arg) := by
   simp [dispatchCalls, callsFrom, h]
 
 /-- … if it returns `false` nothing else of this dispatch is called -/
 theorem C12_spec_block (f : Entry) (fs listeners : SList) (verdict : Cb → Nat → Bool)
-    (rw : Cb → Nat → Nat) (key arg : Nat) (h : verdict f.cb arg = false) :
-    dispatchCalls (f :: fs) listeners verdict rw key arg = [⟨.filter, key, f.id, f.cb, arg⟩] := by
+    (rw : Cb → Nat → Nat) (cont : Nat → Bool) (key arg : Nat) (h : verdict f.cb arg = false) :
+    dispatchCalls (f :: fs) listeners verdict rw cont key arg =
+      [⟨.filter, key, f.id, f.cb, arg⟩] := by
   simp [dispatchCalls, callsFrom, h]
 
 /-! ### the machine implements it -/
@@ -48,8 +69,9 @@ theorem C12_spec_block (f : Entry) (fs listeners : SList) (verdict : Cb → Nat 
     continues (`k .unit`) on the same stack, the listener lists, the filter list and the queue are
     unchanged, and the trace has gained exactly the calls `dispatchCalls …` — the filters in the
     order they were added, each seeing the argument as modified by the earlier ones, stopping at the
-    first `false`; otherwise all listeners, with the final argument — followed by the result of
-    the command.  (The trace is kept newest first, hence the `reverse`.) -/
+    first `false`; otherwise the listeners, with the final argument `a`: all of them if the
+    `CanContinueInvoking` policy `b.cont a` holds, only the first one if not — followed by the
+    result of the command.  (The trace is kept newest first, hence the `reverse`.) -/
 theorem C12_dispatch_flat (b : QBeh) (verdict : Cb → Nat → Bool) (hb : Flat b verdict) (c : QCfg)
     (key arg : Nat) (k : QRes → QProg) (rest : List QFrame)
     (hst : c.stack = .prog (.op (.dispatch key arg) k) :: rest) :
@@ -58,7 +80,7 @@ theorem C12_dispatch_flat (b : QBeh) (verdict : Cb → Nat → Bool) (hb : Flat 
       (runN b n c).1.queue = c.queue ∧
       (runN b n c).1.trace =
         .res .unit ::
-          ((dispatchCalls c.filters (c.lists key) verdict b.rewrite key arg).map QEv.call).reverse
+          ((dispatchCalls c.filters (c.lists key) verdict b.rewrite b.cont key arg).map QEv.call).reverse
             ++ c.trace := by
   obtain ⟨n, hn⟩ := dispatch_flat hb c key arg k rest hst
   exact ⟨n, by rw [hn], by rw [hn], by rw [hn], by rw [hn], by rw [hn]⟩
@@ -138,6 +160,145 @@ theorem C12_block_queued (b : QBeh) (c : QCfg) (key arg : Nat) (rest : List Entr
         (.consumed e.seq 0)) mode rest' kept (idle ++ [{ s with ev := none }]) below := by
   rw [runN_succ_some (step_filt_false hst), runN_succ_some (step_done rfl)]
   simp [runN, endDispatch, hev]
+
+/-! ### `canContinueInvoking`
+
+`CallbackList::operator()` is `forEachIf([&](Callback & cb){ cb(args...); return
+CanContinueInvoking::canContinueInvoking(args...); })`: after *each* listener has returned the
+policy is asked, with the arguments the listeners got (as rewritten by the filters); `false` ends the
+dispatch — normally: a direct dispatch returns to its caller, a queued event counts as consumed.
+Model: `b.cont`, evaluated by `QCfg.step` on the `.iter` frame's argument.  The filters run before
+the listeners and are not affected. -/
+
+/-- **C12 (canContinueInvoking = true: go on), any behaviour.**  When a listener of a dispatch
+    returns (whatever it did meanwhile, with any return value `v`) and the policy holds for the
+    dispatch's argument, the dispatch continues with the next listener of its snapshot that is
+    still in the list — exactly `nextListener`, as without a policy. -/
+theorem C12_canContinue_all (b : QBeh) (c : QCfg) (v : Bool) (key arg : Nat) (rest : List Entry)
+    (below : List QFrame) (hst : c.stack = .prog (.ret v) :: .iter key arg rest :: below)
+    (hc : b.cont arg = true) :
+    step b c = some (nextListener b c key arg rest below) :=
+  step_iter_ret hst hc
+
+/-- … in particular with the default policy (hypothesis: `b.cont` is constantly `true`) every
+    listener return is followed by `nextListener`. -/
+theorem C12_canContinue_default (b : QBeh) (hb : ∀ a, b.cont a = true) (c : QCfg) (v : Bool)
+    (key arg : Nat) (rest : List Entry) (below : List QFrame)
+    (hst : c.stack = .prog (.ret v) :: .iter key arg rest :: below) :
+    step b c = some (nextListener b c key arg rest below) :=
+  step_iter_ret hst (hb arg)
+
+/-- **C12 (canContinueInvoking = false: stop this dispatch), any behaviour.**  When a listener of a
+    dispatch returns and the policy fails for the dispatch's argument, the next configuration is
+    "dispatch ended" (`.done` in place of the listener phase frame `.iter key arg rest`, whose
+    remaining snapshot `rest` is dropped): no further listener of this dispatch is called (the
+    trace is unchanged), and the listener lists, the filter list and the queue are untouched. -/
+theorem C12_canContinue_stop (b : QBeh) (c : QCfg) (v : Bool) (key arg : Nat) (rest : List Entry)
+    (below : List QFrame) (hst : c.stack = .prog (.ret v) :: .iter key arg rest :: below)
+    (hc : b.cont arg = false) :
+    ∃ c', step b c = some c' ∧ c'.stack = .done :: below ∧ c'.trace = c.trace ∧
+      c'.lists = c.lists ∧ c'.filters = c.filters ∧ c'.queue = c.queue ∧ c'.free = c.free :=
+  ⟨_, step_iter_stop hst hc, rfl, rfl, rfl, rfl, rfl, rfl⟩
+
+/-- … a direct dispatch stopped by the policy then simply returns to the program that issued it (the
+    dispatch ends normally: result `unit`) … -/
+theorem C12_canContinue_stop_direct (b : QBeh) (c : QCfg) (v : Bool) (key arg : Nat)
+    (rest : List Entry) (k : QRes → QProg) (below : List QFrame)
+    (hst : c.stack = .prog (.ret v) :: .iter key arg rest :: .wait k :: below)
+    (hc : b.cont arg = false) :
+    (runN b 2 c).1 = { c with stack := .prog (k .unit) :: below, trace := .res .unit :: c.trace } := by
+  rw [runN_succ_some (step_iter_stop hst hc), runN_succ_some (step_done rfl)]
+  rfl
+
+/-- … and a dispatch of a queued event stopped by the policy consumes that event exactly as a
+    dispatch that ran all listeners does: the ghost event `consumed e.seq 0` is recorded, the slot
+    is cleared and joins the slots to be recycled (`idle`), and the processing call goes on with
+    the next event (`rest'`). -/
+theorem C12_canContinue_stop_queued (b : QBeh) (c : QCfg) (v : Bool) (key arg : Nat)
+    (rest : List Entry) (mode : PMode) (s : Slot) (e : QEvent) (rest' kept idle : List Slot)
+    (below : List QFrame) (hev : s.ev = some e)
+    (hst : c.stack = .prog (.ret v) :: .iter key arg rest ::
+      .proc mode (s :: rest') kept idle .disp :: below)
+    (hc : b.cont arg = false) :
+    (runN b 2 c).1 =
+      procNext b ({ c with stack := .done :: .proc mode (s :: rest') kept idle .disp :: below }.push
+        (.consumed e.seq 0)) mode rest' kept (idle ++ [{ s with ev := none }]) below := by
+  rw [runN_succ_some (step_iter_stop hst hc), runN_succ_some (step_done rfl)]
+  simp [runN, endDispatch, hev]
+
+/-- … so the trace continues with `consumed e.seq 0` directly on top of what it was when the last
+    listener returned: nothing of the stopped dispatch comes in between. -/
+theorem C12_canContinue_stop_consumed (b : QBeh) (c : QCfg) (v : Bool) (key arg : Nat)
+    (rest : List Entry) (mode : PMode) (s : Slot) (e : QEvent) (rest' kept idle : List Slot)
+    (below : List QFrame) (hev : s.ev = some e)
+    (hst : c.stack = .prog (.ret v) :: .iter key arg rest ::
+      .proc mode (s :: rest') kept idle .disp :: below)
+    (hc : b.cont arg = false) :
+    ∃ new, (runN b 2 c).1.trace = new ++ .consumed e.seq 0 :: c.trace := by
+  rw [C12_canContinue_stop_queued b c v key arg rest mode s e rest' kept idle below hev hst hc]
+  obtain ⟨new, hn, -⟩ := procNext_NC b
+    ({ c with stack := .done :: .proc mode (s :: rest') kept idle .disp :: below }.push
+      (.consumed e.seq 0)) mode rest' kept (idle ++ [{ s with ev := none }]) below
+  exact ⟨new, hn⟩
+
+/-- **C12 (a queued event is `dispatchCalls`, too), `process`/`processOne`, flat behaviours.**
+    Examining the head `s` (holding event `e`) of a processing call's `todo` records exactly the
+    calls `dispatchCalls … e.key e.arg` of a direct dispatch (filters, then — with the final
+    argument `a` — all listeners if `b.cont a`, only the first if not), then `consumed e.seq 0`,
+    and goes on with the rest of `todo`, the cleared slot having joined `idle` — whether the
+    listeners ran to the end, a filter vetoed or the policy stopped them. -/
+theorem C12_canContinue_queued (b : QBeh) (verdict : Cb → Nat → Bool) (hb : Flat b verdict)
+    (c : QCfg) (mode : PMode) (hm : mode = .all ∨ mode = .one) (s : Slot) (e : QEvent)
+    (rest' kept idle : List Slot) (below : List QFrame) (hev : s.ev = some e) :
+    ∃ n, (runN b n (procNext b c mode (s :: rest') kept idle below)).1 =
+      procNext b
+        { c with
+          stack := .done :: .proc mode (s :: rest') kept idle .disp :: below
+          trace := .consumed e.seq 0 ::
+            ((dispatchCalls c.filters (c.lists e.key) verdict b.rewrite b.cont e.key e.arg).map
+              QEv.call).reverse ++ c.trace }
+        mode rest' kept (idle ++ [{ s with ev := none }]) below := by
+  rw [C12_queued_same b c mode hm s e rest' kept idle below hev]
+  refine (run_filters hb e.key (.proc mode (s :: rest') kept idle .disp :: below) c.filters e.arg c
+    (fun e he => present_of_mem he)).trans ?_
+  refine Steps.head (step_done rfl) ?_
+  simp only [endDispatch, hev, push, dispatchCalls]
+  exact Steps.refl _ _
+
+/-- **C12 (`process` / `processOne` of one queued event, flat behaviours).**  `processOne` with the
+    event `e` at the head of the queue, or `process` with `e` the only queued event: after a number
+    of steps the program continues with result `true`, the trace has gained the calls
+    `dispatchCalls … e.key e.arg` — the same as for `dispatch e.key e.arg`, policy included — then
+    `consumed e.seq 0` and the result; the event has left the queue, its slot is back in the free
+    list, empty; the guard counter, the listener lists and the filters are unchanged.  This holds
+    whether or not the policy let all listeners run. -/
+theorem C12_canContinue_process_flat (b : QBeh) (verdict : Cb → Nat → Bool) (hb : Flat b verdict)
+    (c : QCfg) (cmd : QCmd) (k : QRes → QProg) (rest : List QFrame) (s : Slot) (e : QEvent)
+    (q' : List Slot) (hcmd : (cmd = .process ∧ q' = []) ∨ cmd = .processOne)
+    (hst : c.stack = .prog (.op cmd k) :: rest) (hq : c.queue = s :: q') (hev : s.ev = some e) :
+    ∃ n, (runN b n c).1.stack = .prog (k (.bool true)) :: rest ∧
+      (runN b n c).1.lists = c.lists ∧ (runN b n c).1.filters = c.filters ∧
+      (runN b n c).1.queue = q' ∧
+      (runN b n c).1.free = settle c.ordered (c.free ++ [{ s with ev := none }]) ∧
+      (runN b n c).1.ec = c.ec ∧
+      (runN b n c).1.trace =
+        .res (.bool true) :: .consumed e.seq 0 ::
+          ((dispatchCalls c.filters (c.lists e.key) verdict b.rewrite b.cont e.key e.arg).map
+            QEv.call).reverse ++ c.trace := by
+  have key : ∃ mode, (mode = .all ∨ mode = .one) ∧
+      step b c = some (procNext b { c with queue := q', ec := c.ec + 1 } mode [s] [] []
+        (.wait k :: rest)) := by
+    rcases hcmd with ⟨rfl, rfl⟩ | rfl
+    · exact ⟨.all, .inl rfl, by unfold step; rw [hst]; simp [startProc, hq, hst]⟩
+    · exact ⟨.one, .inr rfl, by unfold step; rw [hst]; simp [startProc, hq, hst]⟩
+  obtain ⟨mode, hm, hs⟩ := key
+  obtain ⟨n, hn⟩ := Steps.head hs
+    (C12_canContinue_queued b verdict hb { c with queue := q', ec := c.ec + 1 } mode hm s e [] [] []
+      (.wait k :: rest) hev)
+  refine ⟨n, ?_⟩
+  rw [hn]
+  rcases hm with rfl | rfl <;>
+    simp [procNext, finishProc, deliver]
 
 /-- **C12 (removed filters never run again): a removed filter is skipped.**  If the next filter of
     the snapshot is no longer in the filter list (it was removed, e.g. by an earlier filter or
@@ -230,9 +391,9 @@ example : calls (runN beh 40 c0).1.trace =
   decide +kernel
 
 /-- the specification says the same -/
-example : dispatchCalls [⟨0, 100⟩, ⟨1, 101⟩] [⟨2, 7⟩] verdict beh.rewrite 0 3 =
+example : dispatchCalls [⟨0, 100⟩, ⟨1, 101⟩] [⟨2, 7⟩] verdict beh.rewrite beh.cont 0 3 =
       [⟨.filter, 0, 0, 100, 3⟩, ⟨.filter, 0, 1, 101, 8⟩, ⟨.listener, 0, 2, 7, 8⟩] ∧
-    dispatchCalls [⟨0, 100⟩, ⟨1, 101⟩] [⟨2, 7⟩] verdict beh.rewrite 0 7 =
+    dispatchCalls [⟨0, 100⟩, ⟨1, 101⟩] [⟨2, 7⟩] verdict beh.rewrite beh.cont 0 7 =
       [⟨.filter, 0, 0, 100, 7⟩, ⟨.filter, 0, 1, 101, 12⟩] := by
   decide +kernel
 
@@ -257,6 +418,96 @@ example : calls (runN beh 60
                                .dispatch 0 7, .removeFilter 1, .dispatch 0 7])] }).1.trace =
     [⟨.filter, 0, 0, 100, 7⟩, ⟨.filter, 0, 1, 101, 12⟩,
      ⟨.filter, 0, 0, 100, 7⟩, ⟨.listener, 0, 2, 7, 12⟩] := by
+  decide +kernel
+
+/-! #### canContinueInvoking -/
+
+/-- listeners 5, 6, 7 return; filter 100 adds 1 to the argument and passes;
+    policy: continue iff the argument (as the listeners got it) is odd -/
+def behC : QBeh where
+  run := fun _ _ => .ret true
+  rewrite := fun cb a => if cb = 100 then a + 1 else a
+  cont := fun a => a % 2 != 0
+
+theorem behC_flat : Flat behC (fun _ _ => true) :=
+  ⟨fun _ _ _ => rfl, fun _ _ _ => ⟨true, rfl⟩⟩
+
+def progC : QProg :=
+  seqP [.listen 0 5, .listen 0 6, .listen 0 7, .dispatch 0 4, .dispatch 0 3,
+        .enqueue 0 4, .enqueue 0 3, .process]
+
+def c0C : QCfg := { stack := [.prog progC] }
+
+/-- direct: argument 4 (even → stop) reaches the first listener only, argument 3 all three;
+    queued: the same, in queue order -/
+example : calls (runN behC 80 c0C).1.trace =
+    [⟨.listener, 0, 0, 5, 4⟩,
+     ⟨.listener, 0, 0, 5, 3⟩, ⟨.listener, 0, 1, 6, 3⟩, ⟨.listener, 0, 2, 7, 3⟩,
+     ⟨.listener, 0, 0, 5, 4⟩,
+     ⟨.listener, 0, 0, 5, 3⟩, ⟨.listener, 0, 1, 6, 3⟩, ⟨.listener, 0, 2, 7, 3⟩] ∧
+    (runN behC 80 c0C).2 = true := by
+  decide +kernel
+
+/-- the queued event whose listeners the policy stopped is consumed like the other one: both
+    `consumed` ghost events are recorded (seq 0 right after its single listener call), the queue is
+    empty, both slots are back in the free list, empty, and the guard counter is back to 0 -/
+example : (runN behC 80 c0C).1.trace.filterMap (fun
+      | .consumed s h => some (s, h, 0) | .call q => some (q.cb, q.arg, 1) | _ => none) =
+      [(1, 0, 0), (7, 3, 1), (6, 3, 1), (5, 3, 1), (0, 0, 0), (5, 4, 1),
+       (7, 3, 1), (6, 3, 1), (5, 3, 1), (5, 4, 1)] ∧
+    (runN behC 80 c0C).1.queue = [] ∧ (runN behC 80 c0C).1.free = [⟨0, none⟩, ⟨1, none⟩] ∧
+    (runN behC 80 c0C).1.ec = 0 := by
+  decide +kernel
+
+/-- the specification says the same -/
+example : dispatchCalls [] [⟨0, 5⟩, ⟨1, 6⟩, ⟨2, 7⟩] (fun _ _ => true) behC.rewrite behC.cont 0 4 =
+      [⟨.listener, 0, 0, 5, 4⟩] ∧
+    dispatchCalls [] [⟨0, 5⟩, ⟨1, 6⟩, ⟨2, 7⟩] (fun _ _ => true) behC.rewrite behC.cont 0 3 =
+      [⟨.listener, 0, 0, 5, 3⟩, ⟨.listener, 0, 1, 6, 3⟩, ⟨.listener, 0, 2, 7, 3⟩] ∧
+    dispatchCalls [] [] (fun _ _ => true) behC.rewrite behC.cont 0 4 = [] := by
+  decide +kernel
+
+/-- the hypotheses of `C12_canContinue_stop` / `C12_canContinue_stop_direct` hold at step 4 of this
+    run (the first listener has returned from `dispatch 0 4`, two listeners are still to come, the
+    policy says stop) and those of `C12_canContinue_all` at step 7 (`dispatch 0 3`) -/
+example : (∃ k below, (runN behC 4 c0C).1.stack =
+      .prog (.ret true) :: .iter 0 4 [⟨1, 6⟩, ⟨2, 7⟩] :: .wait k :: below) ∧ behC.cont 4 = false ∧
+    (∃ below, (runN behC 7 c0C).1.stack =
+      .prog (.ret true) :: .iter 0 3 [⟨1, 6⟩, ⟨2, 7⟩] :: below) ∧ behC.cont 3 = true :=
+  ⟨⟨_, _, rfl⟩, rfl, ⟨_, rfl⟩, rfl⟩
+
+/-- the hypotheses of `C12_canContinue_stop_queued` hold at step 14: the first listener has returned
+    for the queued event (seq 0, argument 4) of slot 0, under the processing call's frame -/
+example : ∃ below, (runN behC 14 c0C).1.stack =
+    .prog (.ret true) :: .iter 0 4 [⟨1, 6⟩, ⟨2, 7⟩] ::
+      .proc .all [⟨0, some ⟨0, 0, 4⟩⟩, ⟨1, some ⟨1, 0, 3⟩⟩] [] [] .disp :: below :=
+  ⟨_, rfl⟩
+
+/-- the policy sees the argument as rewritten by the filters: filter 100 turns 3 into 4, so the
+    dispatch of 3 now stops after the first listener, and the dispatch of 4 (→ 5) reaches all -/
+example : calls (runN behC 80
+      { stack := [.prog (seqP [.addFilter 100, .listen 0 5, .listen 0 6, .listen 0 7,
+                               .dispatch 0 3, .enqueue 0 4, .processOne])] }).1.trace =
+    [⟨.filter, 0, 0, 100, 3⟩, ⟨.listener, 0, 1, 5, 4⟩,
+     ⟨.filter, 0, 0, 100, 4⟩, ⟨.listener, 0, 1, 5, 5⟩, ⟨.listener, 0, 2, 6, 5⟩,
+     ⟨.listener, 0, 3, 7, 5⟩] := by
+  decide +kernel
+
+/-- re-entrant: listener 5 removes itself and appends listener 8 on its first call.  With argument
+    4 the policy stops the dispatch after listener 5 all the same (6, 7, 8 are not called); the
+    second dispatch (argument 3) then runs 6, 7, 8. -/
+def behR : QBeh where
+  run := fun call nth =>
+    if call.cb = 5 ∧ nth = 0 then .op (.unlisten 0 call.h) (fun _ => .op (.listen 0 8) (fun _ => .ret true))
+    else .ret true
+  rewrite := fun _ a => a
+  cont := fun a => a % 2 != 0
+
+example : calls (runN behR 80
+      { stack := [.prog (seqP [.listen 0 5, .listen 0 6, .listen 0 7,
+                               .dispatch 0 4, .dispatch 0 3])] }).1.trace =
+    [⟨.listener, 0, 0, 5, 4⟩,
+     ⟨.listener, 0, 1, 6, 3⟩, ⟨.listener, 0, 2, 7, 3⟩, ⟨.listener, 0, 3, 8, 3⟩] := by
   decide +kernel
 
 example : conditionalFunctor (fun a : Nat => decide (a > 2)) (· + 1) 5 = some 6 ∧
